@@ -120,17 +120,28 @@ type invEntry struct {
 	pos  token.Pos
 	rel  string // package, relative
 	what string
+	tops map[string]bool // the top-level functions the entry was found in
+}
+
+// Entries that a rule of the property decides on its own (so that they need not be in the
+// reference inventory): kind, module:package, and the only functions that may carry them.
+var inventoryCovered = []struct{ kind, pkg, fn, why string }{
+	{"state", "root:internal/configgen", "internal/configgen.listProxyVersions", "C17.generate-shape decides every retention of a proxy listing in listProxyVersions (stored as a clone, returned as a fresh slice)"},
 }
 
 // inventoryOf computes the three inventories of a loaded module.
 func inventoryOf(m *Module) []invEntry {
 	var out []invEntry
-	seen := map[string]bool{}
+	seen := map[string]int{}
+	curTop := ""
 	add := func(line string, pos token.Pos, rel, what string) {
-		if !seen[line] {
-			seen[line] = true
-			out = append(out, invEntry{line, pos, rel, what})
+		i, ok := seen[line]
+		if !ok {
+			i = len(out)
+			seen[line] = i
+			out = append(out, invEntry{line, pos, rel, what, map[string]bool{}})
 		}
+		out[i].tops[curTop] = true
 	}
 	relOf := func(p *ssa.Package) string {
 		return strings.TrimPrefix(strings.TrimPrefix(p.Pkg.Path(), m.modulePath()), "/")
@@ -152,6 +163,7 @@ func inventoryOf(m *Module) []invEntry {
 			continue
 		}
 		tname := m.Name + ":" + fname(top)
+		curTop = fname(top)
 		for _, e := range directEffects(fn) {
 			add("effect\t"+tname+"\t"+effectClass(e), e.Call.Pos(), rel, "performs a "+effectClass(e)+" effect ("+e.Name+")")
 		}
@@ -211,7 +223,7 @@ func inventoryOf(m *Module) []invEntry {
 			// objects: a field of a named struct type that is changed in an object that already
 			// exists (not the one this function has just built), as a whole or element-wise
 			for _, fw := range fieldWritesOf(in) {
-				if fieldNeverRead(fn.Prog, fw.fa) {
+				if fieldNeverReadOpt(fn.Prog, fw.fa, true) {
 					continue
 				}
 				nt := fw.named
@@ -288,6 +300,10 @@ func checkInventory(c *Ctx, prop string) {
 				continue
 			}
 			kind, rest, _ := strings.Cut(e.line, "\t")
+			if why := coveredEntry(kind, rest, e); why != "" {
+				r.Check(prop+".inventory", "new "+kind+": "+strings.ReplaceAll(rest, "\t", " → ")+" (decided by a rule)", m.Pos(e.pos), true, why)
+				continue
+			}
 			r.Check(prop+".inventory", "new "+kind+": "+strings.ReplaceAll(rest, "\t", " → "), m.Pos(e.pos), false,
 				"not in the reference inventory: "+e.what+". New effects, new ways into other packages and new process-wide state are outside what the rules of this property have looked at; they must be reviewed (and the inventory regenerated) before the property can be considered decided for this tree")
 		}
@@ -399,4 +415,22 @@ func fieldWritesOf(in ssa.Instruction) []fieldWrite {
 		}
 	}
 	return out
+}
+
+func coveredEntry(kind, rest string, e invEntry) string {
+	for _, cv := range inventoryCovered {
+		if cv.kind != kind || !strings.HasPrefix(rest, cv.pkg+"\t") || len(e.tops) == 0 {
+			continue
+		}
+		all := true
+		for t := range e.tops {
+			if t != cv.fn {
+				all = false
+			}
+		}
+		if all {
+			return cv.why
+		}
+	}
+	return ""
 }
